@@ -4,7 +4,7 @@ use std::collections::{BTreeMap, BTreeSet};
 
 use serde_json::{Value, json};
 
-use crate::cs;
+use crate::cs::{self, Opts};
 use crate::fmt06::{self, Raw};
 use crate::history::{StepKind, World, random_opts};
 use crate::icept::{Ev, FState, Icept, Mode, V};
@@ -12,7 +12,7 @@ use crate::props::c03::path_class;
 use crate::report::{Run, Tier, panic_site};
 use crate::rng::{Rng, fnv};
 use crate::scenario;
-use crate::tree::GenParams;
+use crate::tree::{self, GenParams};
 
 fn block_writes(events: &[Ev]) -> Vec<&Ev> {
     events.iter().filter(|e| e.verb == V::Write && path_class(&e.path) == "block").collect()
@@ -301,6 +301,67 @@ fn one_unchanged_scenario(run: &Run, case: u64) {
     }
 }
 
+/// Scale: blocks of many megabytes. Identical large files, and a file made of identical
+/// large blocks, are stored once -- within one run (the second occurrence is known from the
+/// first) and across runs.
+fn large_blocks(run: &Run) {
+    const MB: usize = 1 << 20;
+    for (label, o, sizes) in [
+        // default options: 20 MiB blocks; two identical files of 21 MiB + 5 and one of 9 MiB twice
+        ("default options", Opts::DEFAULT, vec![("/big1", 21 * MB + 5, 1u64), ("/big2", 21 * MB + 5, 1), ("/mid1", 9 * MB, 2), ("/mid2", 9 * MB, 2), ("/small", 10, 3)]),
+        // 9 MiB blocks: one file of three identical blocks
+        ("9 MiB blocks", Opts { hunk: 100_000, block: 9 * MB, cap: 1 << 20 }, vec![("/rep", 27 * MB, 4), ("/small", 10, 3)]),
+    ] {
+        let mut spec = tree::Snapshot::new();
+        spec.insert("/".into(), tree::Node::dir());
+        for (i, (name, size, content_id)) in sizes.iter().enumerate() {
+            let content: Vec<u8> = if *content_id == 4 {
+                // three identical thirds
+                let mut r = Rng::for_case(run.seed, 4, 2100);
+                let third = r.bytes(size / 3);
+                [third.clone(), third.clone(), third].concat()
+            } else {
+                Rng::for_case(run.seed, *content_id, 2100).bytes(*size)
+            };
+            let mut n = tree::Node::file(content);
+            n.mtime_s = 1_650_000_000 + i as i64;
+            spec.insert(name.to_string(), n);
+        }
+        let mut w = World::with_spec("c14big", spec, GenParams::small(64, 16), run.seed);
+        run.eval();
+        let mut written: BTreeSet<String> = BTreeSet::new();
+        for round in 0..2 {
+            let rep = w.backup(o);
+            let desc = format!("[{label}: {:?}] backup #{round}", sizes.iter().map(|(n, s, _)| format!("{n} {s}")).collect::<Vec<_>>());
+            let replay = json!({"large_blocks": true, "label": label, "round": round});
+            let out = rep.backup.as_ref().unwrap();
+            for e in block_writes(&rep.events) {
+                run.count("block_writes_observed", 1);
+                run.count("large_block_writes_observed", matches!(e.post, Some(FState::File { len, .. }) if len > (1 << 20)) as u64);
+                let pre_nonempty = matches!(e.pre, Some(FState::File { len, .. }) if len > 0);
+                if pre_nonempty || !written.insert(e.path.clone()) {
+                    run.violation("block-write-issued-for-existing-block", format!("{desc}: {} (pre-state {:?})", e.brief(), e.pre), replay.clone());
+                    return;
+                }
+            }
+            if !out.clean() {
+                run.violation("large-blocks-backup-not-clean", format!("{desc}: {}", out.describe()), replay.clone());
+                return;
+            }
+            if round == 1 && !block_writes(&rep.events).is_empty() {
+                run.violation("unchanged-tree-wrote-blocks", desc, replay);
+                return;
+            }
+        }
+        let band = *w.sources.keys().next().unwrap();
+        if let Err(m) = crate::oracle::restore_and_compare(&w.arch, Some(band), &w.snap, &w.sc, &tree::CmpOpts::default()) {
+            run.violation(format!("large-blocks:{}", m.class), m.detail, json!({"large_blocks": true, "label": label}));
+            return;
+        }
+        run.count("large_block_scenarios", 1);
+    }
+}
+
 pub fn run(tier: Tier, replay: Option<Value>) -> i32 {
     let run = Run::new("C14", "fault_enumeration", tier, replay.clone());
     let resume_replay = replay.as_ref().and_then(|r| r.get("resume")).is_some();
@@ -318,11 +379,16 @@ pub fn run(tier: Tier, replay: Option<Value>) -> i32 {
     if (replay.is_none() || unchanged_replay) && !fault_replay {
         run.par_cases(tier.pick(12, 200), super::threads(), |c| one_unchanged_scenario(&run, c));
     }
+    if replay.is_none() || replay.as_ref().and_then(|r| r.get("large_blocks")).is_some() {
+        if let Err(m) = crate::report::guard(|| large_blocks(&run)) {
+            run.inconclusive(format!("harness error in the large-block scenario: {m}"));
+        }
+    }
     let needs: &[(&str, u64)] = if replay.is_some() { &[] } else {
-        &[("unchanged_tree_backups", 10), ("block_writes_observed", 100), ("resume_crash_points", 100), ("crash_points_with_recorded_file_entries", 20), ("recorded_entries_compared", 50), ("unchanged_resume_crash_points", 100), ("read_fault_runs", 100)]
+        &[("large_block_scenarios", 2), ("large_block_writes_observed", 4), ("unchanged_tree_backups", 10), ("block_writes_observed", 100), ("resume_crash_points", 100), ("crash_points_with_recorded_file_entries", 20), ("recorded_entries_compared", 50), ("unchanged_resume_crash_points", 100), ("read_fault_runs", 100)]
     };
     run.finish(
-        "clause 1: in histories, a second backup of an untouched tree (same or different options) must issue zero block writes, report written_blocks == 0 and record identical addresses for every file (independent decode); clause 2: in every backup of every history each block write is issued only for a name whose file is absent or zero-length, and at most once (attempts are counted, from the interceptor log with pre-states); clause 3: for EVERY crash point k of the C03 scenarios' backup trace, the run is killed before k and then resumed with the same options: no block file left non-empty by the interrupted run is written again, every file entry recorded in the interrupted run's hunks reappears with identical addresses, and unmodified_files >= their number; and for trees that have not changed since the last complete version, a backup killed at EVERY point followed by another backup must still write no block and record that version's addresses. Also, clause 2 under single faults: every read / list_dir / metadata operation of a backup's trace fails once with each of 4 kinds, and still no block write may be issued for a name whose file exists non-empty. Distinct = histories with an unchanged-tree pair / (scenario, k) with recorded entries.",
+        "clause 1: in histories, a second backup of an untouched tree (same or different options) must issue zero block writes, report written_blocks == 0 and record identical addresses for every file (independent decode); clause 2: in every backup of every history each block write is issued only for a name whose file is absent or zero-length, and at most once (attempts are counted, from the interceptor log with pre-states); clause 3: for EVERY crash point k of the C03 scenarios' backup trace, the run is killed before k and then resumed with the same options: no block file left non-empty by the interrupted run is written again, every file entry recorded in the interrupted run's hunks reappears with identical addresses, and unmodified_files >= their number; and for trees that have not changed since the last complete version, a backup killed at EVERY point followed by another backup must still write no block and record that version's addresses. Also, clause 2 under single faults: every read / list_dir / metadata operation of a backup's trace fails once with each of 4 kinds, and still no block write may be issued for a name whose file exists non-empty. Scale: two scenarios with blocks of 9-20 MiB (two identical 21 MiB files and two identical 9 MiB files under default options; one 27 MiB file of three identical 9 MiB blocks): each block is written once, a second backup writes none, the restore is exact. Distinct = histories with an unchanged-tree pair / (scenario, k) with recorded entries.",
         &["kill = no later storage effect", "E2 reader trusted"],
         Some(true),
         needs,
